@@ -97,6 +97,16 @@ pub fn c14(tier: &str, seed: u64) -> Vec<Case> {
             }
             if let Ok(b) = if i % 2 == 0 { p.build_bytes_vec_compressed() } else { p.build_bytes_vec() } { d.push((b, "announcement".into())); }
         }
+        // OPT options whose length field is at the top of the 16-bit range, with an RDLENGTH that fits the
+        // datagram, one that does not, and the largest
+        for olen in [0x7FFFu16, 0x8000, 0xFFFB, 0xFFFC, 0xFFFD, 0xFFFE, 0xFFFF] { for flags in [0u8, 0x84] { for rdlen in [4u16, 8, 0xFFFF] {
+            let mut m = vec![0u8, 7, flags, 0, 0, 0, 0, 0, 0, 0, 0, 1, 0, 0, 41, 4, 0, 0, 0, 0, 0];
+            m.extend_from_slice(&rdlen.to_be_bytes());
+            m.extend_from_slice(&[0, 10]);
+            m.extend_from_slice(&olen.to_be_bytes());
+            m.extend_from_slice(&[1, 2, 3, 4]);
+            d.push((m, "opt-option-length".into()));
+        } } }
         for extra in [1u16, 4, 100, 60000] { for flags in [0u8, 0x84] {
             let mut m = vec![0u8, 7, flags, 0, 0, 0, 0, 0, 0, 0, 0, 1, 0, 0, 41, 4, 0, 0, 0, 0, 0];
             m.extend_from_slice(&(4 + extra).to_be_bytes());
@@ -105,6 +115,38 @@ pub fn c14(tier: &str, seed: u64) -> Vec<Case> {
         } }
         d
     };
+    // a reply beyond 16 KiB: one name answering with 320 TXT records and an SRV record whose target owns
+    // two address records, so that the target's name first appears past offset 16383 and is then used
+    // again; the reply must still be a parseable message with the same records
+    for variant in 0..(if thorough { 4 } else { 1 }) {
+        let x = mk_name(&[b"big".to_vec(), b"_srv".to_vec(), b"_tcp".to_vec(), b"local".to_vec()]);
+        let t = mk_name(&[b"target-host".to_vec(), vec![b'h'; 20 + variant], b"local".to_vec()]);
+        let mut mgr: ResourceRecordManager<'static> = ResourceRecordManager::new();
+        let mut ops = String::new();
+        let mut add = |mgr: &mut ResourceRecordManager<'static>, rr: ResourceRecord<'static>| { ops.push_str(&format!(" A {}", text::rr(&rr))); mgr.add_authoritative_resource(rr); };
+        for k in 0..320u32 {
+            let mut txt = simple_dns::rdata::TXT::new();
+            txt.add_char_string(crate::gen::mk_cs(format!("record-{:04}-{}", k, "p".repeat(36)).as_bytes()));
+            add(&mut mgr, ResourceRecord::new(x.clone(), CLASS::IN, 120, RData::TXT(txt)));
+        }
+        add(&mut mgr, ResourceRecord::new(x.clone(), CLASS::IN, 120, RData::SRV(simple_dns::rdata::SRV { priority: 0, weight: 0, port: 80, target: t.clone() })));
+        add(&mut mgr, ResourceRecord::new(t.clone(), CLASS::IN, 120, RData::A(A { address: 0x0A000001 })));
+        add(&mut mgr, ResourceRecord::new(t.clone(), CLASS::IN, 120, RData::AAAA(simple_dns::rdata::AAAA { address: 1 })));
+        let mut q = Packet::new_query(77);
+        q.questions.push(Question::new(x.clone(), QTYPE::ANY, CLASS::IN.into(), false));
+        let d = q.build_bytes_vec().unwrap();
+        watch("big reply");
+        let mref = &mgr;
+        let dd = d.clone();
+        let res = std::panic::catch_unwind(std::panic::AssertUnwindSafe(|| responder_step(mref, &dd)));
+        let out = match &res { Ok(b) => format!("ok {}", reply_text(b)), Err(_) => "panic".to_string() };
+        let mut c = Case::new(format!("pipe{} PR {} 5", ops, text::hex(&d)), out.clone()).tag("big-reply").tag("responder");
+        if out == "panic" { c = c.fail("responder-panic", "the responder's handling of a datagram panicked".into()); }
+        if out.contains("unparseable") { c = c.fail("reply-unparseable", "a reply larger than 16 KiB is not a parseable DNS message".into()); }
+        match &res { Ok(Some(b)) if b.len() > 16600 => { c = c.tag("replied"); if let Ok(rp) = Packet::parse(b) { if rp.answers.len() != 321 || rp.additional_records.len() != 2 || rp.additional_records.iter().any(|r| r.name != t) { c = c.fail("reply-differs", "the records of a reply larger than 16 KiB do not read back as registered".into()); } } }
+            Ok(_) => { c = c.fail("big-reply-not-built", "the large reply was not produced".into()); } Err(_) => {} }
+        v.push(c);
+    }
     let mut it = 0usize;
     for (d, tag) in datagrams {
         it += 1;
